@@ -458,7 +458,7 @@ var shapeNames = []string{
 	"num", "num", "num", "num", "num", "num", "num", "num", "num", "num", "num", "num",
 	"tee", "const", "load", "load", "store", "store", "storeload", "global", "select", "if", "ifvoid",
 	"brif", "brifval", "brtable", "brtableval", "loop", "while", "nested", "return", "call", "callmulti",
-	"callind", "callindraw", "pending", "ifmulti", "memcopy", "memfill", "memgrow", "memsize", "tableops", "unreachable",
+	"callind", "callindraw", "pending", "ifmulti", "abi", "abi", "memcopy", "memfill", "memgrow", "memsize", "tableops", "unreachable",
 	"chain", "chain", "localzero", "params", "retmulti", "rawaddr", "bulkraw",
 }
 
@@ -1089,6 +1089,28 @@ func (g *gen) one() *Func {
 			}
 			return "params<=6"
 		}
+		return f
+
+	case "abi": // more parameters than argument registers together with results returned through memory
+		if g.cfg.excluded("return", "multi-value") {
+			return nil
+		}
+		n := rapid.IntRange(5, 10).Draw(t, "nparams")
+		nr := rapid.IntRange(3, 4).Draw(t, "nresults")
+		var ps, rs []byte
+		for i := 0; i < n; i++ {
+			ps = append(ps, vt("pt"))
+		}
+		b := newFB(g.name(), string(ps), "")
+		for i := 0; i < nr; i++ {
+			k := rapid.IntRange(0, n-1).Draw(t, "pk")
+			rs = append(rs, ps[k])
+			b.I(get(k))
+		}
+		b.results = string(rs)
+		f := b.fn("return", shape, true, false)
+		nn := n
+		f.class = func(a []uint64) string { return fmt.Sprintf("params=%d,results>2", nn) }
 		return f
 
 	case "retmulti":
